@@ -307,7 +307,7 @@ def run(ctx):
     totals = dict.fromkeys(STAT_KEYS, 0)
     per_level = {}
     seen = set() if ctx.quick else None
-    n_prog = n_run = n_nontrivial = n_compared = 0
+    n_prog = n_run = n_nontrivial = n_compared = n_discarded = 0
     max_ratio = 0.0
     samples = {}
 
@@ -348,6 +348,7 @@ def run(ctx):
                     raise Machinery(f"generated program does not parse: {src!r}: {r['parse_errors'][0]['message']}")
                 gk = garden_kind(r)
                 if rk == "budget" or gk == "budget":
+                    n_discarded += 1
                     ctx.outcome(f"discarded:reference_{'budget' if rk == 'budget' else 'ends'}+garden_{'budget' if gk == 'budget' else 'ends'}")
                     if gk == "budget" and rk != "budget" and rsteps * 100 <= TICK_LIMIT * 10:
                         # the reference ends within 1% of ten times the tick limit: look again with that limit
@@ -423,8 +424,9 @@ def run(ctx):
     vac = [k for k in ("ok", "exception", "assertion") if not oc.get(k)] + [k for k in STAT_KEYS if not totals[k]]
     if vac:
         raise Machinery(f"vacuous exploration: nothing of {vac}")
-    if n_compared * 10 < n_prog * 9:
-        raise Machinery(f"more than 10% of the programs were discarded for budget ({n_prog - n_compared} of {n_prog})")
+    if n_discarded * 10 > n_prog:
+        raise Machinery(f"more than 10% of the programs were discarded for budget ({n_discarded} of {n_prog})")
+    ctx.bound("programs_discarded_for_budget", n_discarded)
     return (f"every program of the core grammar (gvlib/coregen.py) of weighted size <= {size} with block depth <= {depth}, <= 2 functions, <= 3 top-level statements, "
             "each generated exactly once in order of size, restricted to the defined fragment; executed by the real interpreter (run job) and by the reference interpreter; "
             "compared on exact stdout and outcome kind; either side out of budget = discarded (counted under outcomes). Non-trivial = the reference executed at least one "
